@@ -388,6 +388,20 @@ def canon_shapes(tree):
     rules need to know only one."""
     n_if = n_aug = 0
     for node in ast.walk(tree):
+        if isinstance(node, (ast.If, ast.While)) and isinstance(
+                node.test, ast.UnaryOp) and isinstance(
+                    node.test.op, ast.Not) and isinstance(
+                        node.test.operand, ast.Compare) and len(
+                            node.test.operand.ops) == 1 and type(
+                                node.test.operand.ops[0]) in (
+                                    ast.In, ast.NotIn, ast.Is, ast.IsNot):
+            node.test = negate(node.test.operand)
+        if isinstance(node, (ast.If, ast.While)) and isinstance(
+                node.test, ast.UnaryOp) and isinstance(
+                    node.test.op, ast.Not) and isinstance(
+                        node.test.operand, ast.BoolOp) and not getattr(
+                            node, "orelse", None):
+            node.test = negate(node.test.operand)
         if isinstance(node, ast.If) and node.orelse and isinstance(
                 node.test, ast.UnaryOp) and isinstance(node.test.op, ast.Not):
             node.test = node.test.operand
@@ -415,11 +429,117 @@ def canon_shapes(tree):
     return n_if, n_aug
 
 
+def _leaves(stmts):
+    if not stmts:
+        return False
+    last = stmts[-1]
+    if isinstance(last, (ast.Return, ast.Raise, ast.Continue, ast.Break)):
+        return True
+    if isinstance(last, ast.If) and last.orelse:
+        return _leaves(last.body) and _leaves(last.orelse)
+    return False
+
+
+_NEG_OP = {ast.In: ast.NotIn, ast.NotIn: ast.In, ast.Is: ast.IsNot,
+           ast.IsNot: ast.Is, ast.Eq: ast.NotEq, ast.NotEq: ast.Eq,
+           ast.Lt: ast.GtE, ast.GtE: ast.Lt, ast.Gt: ast.LtE,
+           ast.LtE: ast.Gt}
+
+
+def negate(e):
+    """the negation of a Python-level condition, in its simplest spelling"""
+    if isinstance(e, ast.UnaryOp) and isinstance(e.op, ast.Not):
+        return e.operand
+    if isinstance(e, ast.Compare) and len(e.ops) == 1 and type(
+            e.ops[0]) in _NEG_OP:
+        return ast.copy_location(ast.Compare(
+            left=e.left, ops=[_NEG_OP[type(e.ops[0])]()],
+            comparators=e.comparators), e)
+    if isinstance(e, ast.BoolOp):
+        # De Morgan
+        return ast.copy_location(ast.BoolOp(
+            op=ast.And() if isinstance(e.op, ast.Or) else ast.Or(),
+            values=[negate(v) for v in e.values]), e)
+    return ast.copy_location(ast.UnaryOp(op=ast.Not(), operand=e), e)
+
+
+def canon_flow(tree):
+    """one shape for guard clauses:
+    * `if c: A(leaves) else: B`            ->  `if c: A` ; B
+    * `if c: continue` ; REST  (in a loop)  ->  `if not c: REST`
+    * `if c: return` ; REST  (function end) ->  `if not c: REST`
+    applied bottom-up until nothing changes"""
+    n = 0
+
+    def neg(e):
+        return negate(e)
+
+    def do(lst, ctx):
+        """ctx: 'loop' if falling off the end of lst continues a loop,
+        'func' if it ends the function, None otherwise"""
+        nonlocal n
+        i = 0
+        while i < len(lst):
+            st = lst[i]
+            if isinstance(st, FUNC):
+                do(st.body, "func")
+            elif isinstance(st, (ast.For, ast.AsyncFor, ast.While)):
+                do(st.body, "loop")
+                do(st.orelse, None)
+            elif isinstance(st, ast.If):
+                last = i == len(lst) - 1
+                do(st.body, ctx if last else None)
+                do(st.orelse, ctx if last else None)
+            elif isinstance(st, (ast.With, ast.AsyncWith)):
+                do(st.body, ctx if i == len(lst) - 1 else None)
+            elif isinstance(st, ast.Try):
+                do(st.body, None)
+                for h in st.handlers:
+                    do(h.body, None)
+                do(st.orelse, None)
+                do(st.finalbody, None)
+            elif isinstance(st, ast.ClassDef):
+                do(st.body, None)
+            if isinstance(st, ast.If):
+                # else after a leaving body
+                if st.orelse and _leaves(st.body) and not (
+                        len(st.orelse) == 1 and isinstance(
+                            st.orelse[0], ast.If) and False):
+                    rest = st.orelse
+                    st.orelse = []
+                    lst[i + 1:i + 1] = rest
+                    n += 1
+                    continue
+                # guard clause that only leaves
+                if not st.orelse and len(st.body) == 1 and i + 1 < len(lst):
+                    b = st.body[0]
+                    bare = (isinstance(b, ast.Continue) and ctx == "loop") \
+                        or (isinstance(b, ast.Return) and (
+                            b.value is None or (isinstance(
+                                b.value, ast.Constant)
+                                and b.value.value is None))
+                            and ctx == "func")
+                    if bare:
+                        rest = lst[i + 1:]
+                        del lst[i + 1:]
+                        st.test = neg(st.test)
+                        st.body = rest
+                        n += 1
+                        do(st.body, ctx)
+                        continue
+            i += 1
+    do(tree.body, None)
+    return n
+
+
 def normalize(tree, modname):
     from . import inline
     ref = reference()
     info = {"noise_removed": strip_noise(tree)}
     info["reshaped"] = canon_shapes(tree)
+    if os.environ.get("SA_CANON_FLOW", "1") == "1":
+        info["flow"] = canon_flow(tree)
+        canon_shapes(tree)
     if "functions" in ref:
         info["constants_inlined"] = 0
         for _ in range(4):      # constants defined in terms of constants
@@ -443,6 +563,11 @@ def normalize(tree, modname):
                     func, set(locs.get(q, [])))
                 n += inline.inline_temporaries(func, set(locs.get(q, [])))
         info["temporaries_inlined"] = n
+        if n:
+            # with the temporaries gone the remaining locals line up
+            more = recover_names(tree, modname, ref)
+            if more:
+                info["renamed"].update(more)
         if info.get("helpers_inlined") or n:
             renumber(tree)
     return info
